@@ -45,6 +45,11 @@ def run(ctx, rep):
             group.append((cq.replace("chartparse.", "").replace(".ParsedData", ""), impl))
         if which in ("instrument", "sync"):
             check_pairwise_disjoint(ctx, rd, group, pf, f"{which} section")
+    rpo = rep.rule("safe-skip", "trying a kind on any line can only succeed or raise RegexNotMatchError: every partial operation reachable "
+                                "from the dispatcher (recognisers, exception constructors) is discharged", floor=1)
+    from .partial import check_partial_scope
+    from .dispatch import PARSE
+    check_partial_scope(ctx, rpo, [PARSE])
     rch = rep.rule("chain", "file -> lines (read().splitlines(), utf-8-sig) -> framing -> section route -> dispatcher -> builders: every link "
                             "hands the lines on unchanged", floor=10)
     from .chain import check_chain
